@@ -3,6 +3,7 @@ package checks
 
 import (
 	_ "verifmc/checks/c06"
+	_ "verifmc/checks/c07"
 	_ "verifmc/checks/c14"
 	_ "verifmc/checks/c16"
 	_ "verifmc/checks/c17"
